@@ -160,8 +160,12 @@ VDec(r) ==
       std2 == doc2 # doc /\ Standard(kind, doc2, d2) /\ IdsInDouble(kind, doc, r.idin)
       vs == [k \in DOMAIN r.runs |-> VRun(r, r.runs[k], kind, d, std, doc2, d2, std2)] IN
   IF \A k \in DOMAIN vs : vs[k].ok THEN OK ELSE vs[CHOOSE k \in DOMAIN vs : ~vs[k].ok /\ \A j \in DOMAIN vs : j < k => vs[j].ok]
+\* A result is a value: the bytes an encoder handed out still hold what they held at the return when the same entry point has
+\* been called again (the driver keeps the previous result of every entry point alive and lists the ones that changed).
+Overwritten(r) == IF "overwritten" \in DOMAIN r THEN r.overwritten ELSE <<>>
 Verdict(r) ==
   IF r.ev # "ok" THEN Viol("geojson|" \o r.ev)
+  ELSE IF Overwritten(r) # <<>> THEN Viol("geojson|result-overwritten-by-a-later-call|" \o Overwritten(r)[1])
   ELSE CASE r.case.fam = "geom" -> VGeom(r) [] r.case.fam = "feat" -> VFeat(r) [] r.case.fam = "fc" -> VFc(r) [] OTHER -> VDec(r)
 VARIABLES i, bad
 Init == i = 1 /\ bad = 0
